@@ -69,6 +69,8 @@ pub fn run(ctx: &Ctx) -> i32 {
         }
         cases.push(Case { name: "valid".into(), text: valid_text.clone(), image: Some(valid_image.clone()), dest: "inject:1+".into() });
         cases.push(Case { name: "valid".into(), text: valid_text.clone(), image: Some(valid_image.clone()), dest: "inject:2+".into() });
+        cases.push(Case { name: "valid".into(), text: valid_text.clone(), image: Some(valid_image.clone()), dest: "inject-absent:1".into() });
+        cases.push(Case { name: "valid".into(), text: valid_text.clone(), image: Some(valid_image.clone()), dest: "inject-absent:2".into() });
     }
     let parts = pooled(None, cases.len(), 1, Acc::new, |acc, i| {
         let c = &cases[i];
@@ -110,13 +112,14 @@ pub fn run(ctx: &Ctx) -> i32 {
                 let _ = std::fs::create_dir_all(dir.join("adir"));
                 ("adir".into(), None)
             }
+            d if d.starts_with("inject-absent") => ("out.lc3".into(), Some(dir.join("out.lc3"))),
             _ => {
                 sub.write("out.lc3", OLD);
                 ("out.lc3".into(), Some(dir.join("out.lc3")))
             }
         };
         let before: Option<Vec<u8>> = dest_path.as_ref().and_then(|p| std::fs::read(p).ok());
-        let r = if let Some(k) = c.dest.strip_prefix("inject:") {
+        let r = if let Some(k) = c.dest.strip_prefix("inject:").or(c.dest.strip_prefix("inject-absent:")) {
             // fail the K-th (or from the K-th on) write to the destination path
             let spec = format!("inject=write:error=ENOSPC:when={k}");
             let p = dir.join("out.lc3");
@@ -157,19 +160,16 @@ pub fn run(ctx: &Ctx) -> i32 {
         } else {
             // non-zero: destination as it was
             if c.dest.starts_with("inject") {
-                // mid-stream ENOSPC may leave a partial file: recorded, not judged (the quantifier
-                // names /dev/full and uncreatable destinations as the write faults)
-                acc.nontrivial();
                 acc.gate("write-fault-reported");
-                acc.outcome(format!("inject/nonzero/dest-{}", if after == before { "unchanged" } else { "changed" }));
-            } else if after != before {
+            }
+            if after != before {
                 let what = match (&before, &after) {
                     (None, Some(a)) => format!("created-{}", if a.is_empty() { "empty" } else { "partial" }),
                     (Some(_), Some(a)) => format!("overwritten-{}", if a.is_empty() { "empty" } else { "partial" }),
                     (Some(_), None) => "removed".to_string(),
                     _ => "changed".to_string(),
                 };
-                let why = if c.image.is_some() { "write-failure" } else { "assembly-failure" };
+                let why = if c.dest.starts_with("inject") { "write-failure-after-open" } else if c.image.is_some() { "write-failure" } else { "assembly-failure" };
                 acc.violation(format!("C08/nonzero-exit-but-destination-{what}/{why}"), format!("`lace compile` exits {} ({}) but the destination changed: before {:?} bytes, after {:?} bytes", r.status, c.name, before.as_ref().map(|b| b.len()), after.as_ref().map(|b| b.len())), case);
             } else {
                 acc.nontrivial();
@@ -191,7 +191,7 @@ pub fn run(ctx: &Ctx) -> i32 {
         ctx,
         acc,
         Level { category: "fault_enumeration", bfs: None },
-        "fault enumeration against the real binary: (i) programs of n = 1..4 (thorough 6) statements whose only error is an out-of-range label reference at EVERY emission position k, and lexer / parser / backpatch errors after n-1 good statements, each with the destination absent and pre-existing with known bytes, given explicitly and defaulted (<stem>.lc3); (ii) a valid program with destination absent, pre-existing (longer, and of exactly the new length), defaulted, /dev/full, a path in a missing directory, a path in a read-only directory, a directory; (iii) a valid program with EVERY write(2) to the destination failed with ENOSPC, one at a time and from the K-th on (strace -e inject). Oracle: exit 0 => the destination holds the complete reference object file; exit != 0 => for (i) and (ii) the destination is byte-identical to before (absent stays absent); for (iii) only the first half is asserted. non-trivial = distinct fault cases that satisfied the oracle",
+        "fault enumeration against the real binary: (i) programs of n = 1..4 (thorough 6) statements whose only error is an out-of-range label reference at EVERY emission position k, and lexer / parser / backpatch errors after n-1 good statements, each with the destination absent and pre-existing with known bytes, given explicitly and defaulted (<stem>.lc3); (ii) a valid program with destination absent, pre-existing (longer, and of exactly the new length), defaulted, /dev/full, a path in a missing directory, a path in a read-only directory, a directory; (iii) a valid program with EVERY write(2) to the destination failed with ENOSPC, one at a time and from the K-th on (strace -e inject). Oracle: exit 0 => the destination holds the complete reference object file; exit != 0 => for (i) and (ii) the destination is byte-identical to before (absent stays absent); for (iii) too (destination pre-existing and absent). non-trivial = distinct fault cases that satisfied the oracle",
         true,
         &["success-with-complete-file", "failure-leaves-destination"],
         &["strace fault injection models a device that stops accepting data mid-stream", "running as root: the read-only directory case may be writable and then counts as a plain success"],
